@@ -2,6 +2,7 @@ import RPVerif.Model.Pipeline
 import RPVerif.Lemmas.Pipeline
 import RPVerif.Props.C06
 import RPVerif.Lemmas.Timeout
+import RPVerif.Gen.States
 
 /-!
 # C05 — Every submitted task ends in one final state that tells the truth
@@ -196,5 +197,53 @@ theorem C05_reported_startup_clears (w : TW) (t u : Nat) (hu : u ∉ w.gone)
     cancellation ever; without the report the task is cancelled at the first pass after t=4 -/
 example : (Timeout.run {} [(1, .reg 0 3 0), (2, .done 0 0), (9, .pass), (50, .pass)]).2 = [] := by decide
 example : (Timeout.run {} [(1, .reg 0 3 0), (4, .pass), (5, .pass), (9, .pass)]).2 = [(5, 0)] := by decide
+
+/-! ### the final state tells the truth under every delivery order (round 15) -/
+
+/-- invariant: a final state on the client's record came with the details -/
+theorem viewRun_inv (acc : St → St → Bool) (ns : List Note) (v : View)
+    (hn : ∀ n ∈ ns, n.st.isFinal = true → n.full = true) (hv : v.st.isFinal = true → v.details = true) :
+    (viewRun acc v ns).st.isFinal = true → (viewRun acc v ns).details = true := by
+  induction ns generalizing v with
+  | nil => exact hv
+  | cons n ns ih =>
+    have hstep : (viewStep acc v n).st.isFinal = true → (viewStep acc v n).details = true := by
+      unfold viewStep
+      by_cases ha : acc v.st n.st = true
+      · simp only [ha, if_true]
+        intro hf
+        simp [hn n (by simp) hf]
+      · simp only [ha]
+        exact hv
+    exact ih (viewStep acc v n) (fun m hm => hn m (mem_cons_of_mem _ hm)) hstep
+
+/-- **C05, exit code and exception under every delivery order**: with the publish loop of `BaseComponent.advance` as
+    the translator reads it from the source (`Gen.publishFinalByThing`: a thing in a final state is published in full,
+    whatever state argument the call carried), for EVERY list of notifications components publish for a task - in any
+    order, with duplicates, any of them dropped by any acceptance rule of the client - a task the client records in a
+    final state has its details (exit code, exception) recorded too -/
+theorem C05_final_carries_details (acc : St → St → Bool)
+    (calls : List (Bool × Option St × St)) (v : View) (hv : v.st.isFinal = false) :
+    let ns := calls.map (fun c => noteOf Gen.publishFinalByThing c.1 c.2.1 c.2.2)
+    (viewRun acc v ns).st.isFinal = true → (viewRun acc v ns).details = true := by
+  have e : Gen.publishFinalByThing = true := by decide
+  intro ns
+  apply viewRun_inv
+  · intro n hn hf
+    simp only [ns, mem_map] at hn
+    obtain ⟨c, _, rfl⟩ := hn
+    rw [e] at hf ⊢
+    simp only [noteOf, if_true] at hf ⊢
+    simp [hf]
+  · intro h; rw [hv] at h; exact absurd h (by decide)
+
+/-- the test matters: judged by the state argument, the client's output staging (it sets the final state on the task and
+    advances without a state) publishes DONE without the task; delivered before the agent's full update, which the client
+    then refuses as no progression, the task is DONE and its exit code is unknown -/
+theorem C05_final_carries_details_witness :
+    let acc : St → St → Bool := fun cur tgt => decide (cur.val 15 < tgt.val 15)
+    (viewRun acc ⟨.nf 1, false⟩ [noteOf false false none .done, noteOf false true (some (.nf 13)) (.nf 13)]) = ⟨.done, false⟩
+    ∧ (viewRun acc ⟨.nf 1, false⟩ [noteOf true false none .done, noteOf true true (some (.nf 13)) (.nf 13)]) = ⟨.done, true⟩ := by
+  decide
 
 end RPVerif.C05
